@@ -12,7 +12,10 @@ The `synthetic` hook (run by the C09 sweep) carries the C17 checks on the implem
   * flatten_action / unflatten_action mutually inverse on the whole action space and equal to the model's;
   * is_solved on monochrome / almost monochrome cubes against the L2 predicate;
   * the generator replayed on its own scramble actions: state = fold of moves from the solved cube (L1 and L2), and the
-    inverse move sequence played through env.step solves it (reward 1, LAST).
+    inverse move sequence played through env.step solves it (reward 1, LAST);
+  * wave 2 (harness/puzzle_wave2.py): the model's obsSpec / actionSpec / reward / discount specs against the real spec objects,
+    generate_value(), the reset timestep, observations as spec-level arrays (shape, dtype, data), observation_spec.validate
+    against the model's `valid`, and whole episodes (time_limit + 2 steps, through LAST) against the L1 `run`.
 """
 from __future__ import annotations
 
@@ -32,7 +35,7 @@ class A(Adapter):
     terminate_on_invalid = False
     max_steps = 30
     episode_cap = 260
-    ops = ("state", "step", "judge", "instance", "play", "bounds")
+    ops = ("state", "step", "judge", "instance", "play", "bounds", "spec", "run")
     state_fields = ["cube", "step_count"]
 
     def configs(self, tier):
@@ -125,6 +128,12 @@ class A(Adapter):
         self._law_judges(ctx, cfg, env, runner, rng, drv)
         if cfg.meta["scrambles"] <= 40:
             self._scramble_replay(ctx, cfg, env, runner, rng, drv, 3 if ctx.quick else 12)
+        # wave 2 (audit r3): declared specs vs the model's obsSpec / actionSpec, reset timestep, observation arrays, whole episodes
+        import puzzle_wave2 as w2
+
+        w2.check_specs(ctx, self, cfg, env, drv)
+        w2.check_reset_and_obs(ctx, self, cfg, env, runner, rng, drv, 2 if ctx.quick else 6, 3 if ctx.quick else 8)
+        w2.check_run(ctx, self, cfg, env, runner, rng, drv, self.completed)
 
     @staticmethod
     def _label(n):
